@@ -1,6 +1,6 @@
 (* C04 — the rest of the public API (xop): caller-shared Parameter objects and the
    change_fixed_value / update_fixed_param_value_cache protocol.  T1 is REFUTED once these are used
-   (open findings C04-shared-parameter, C04-change-fixed-value); what still holds is proved here. *)
+   (open finding C04-shared-parameter; change_fixed_value needs the documented cache update); what still holds is proved here. *)
 From Coq Require Import ZArith List Bool Lia.
 From Sky Require Import Result PyList G_params M_Params S_Params P_Params P_ParamsViews P_ParamsWorld P_ParamsRefine.
 Import ListNotations.
